@@ -38,6 +38,10 @@ func main() {
 		cmdDenom(args)
 	case "store":
 		cmdStore(args)
+	case "scenarios": // the designated scenarios only (debugging aid): prints their failures
+		for _, f := range runScenarios() {
+			fmt.Printf("%s class=%d %s\n", f.Property, f.Class, f.What)
+		}
 	default:
 		fmt.Fprintf(os.Stderr, "unknown subcommand %q\n", sub)
 		os.Exit(2)
